@@ -26,7 +26,7 @@ RULE = (
     "r|r+|c) whose tasks report dtype/shape/flags/sha1 of what they received.  Oracle: identical dtype, shape, "
     "F-contiguity iff the original was F- and not C-contiguous, identical element bytes (NaN-safe, object arrays compared "
     "element-wise); default load: the same modulo the documented conversion to native byte order; mmap loads are np.memmap "
-    "on the file, 16-byte aligned, read-only for 'r', and the file bytes at [offset, offset+nbytes) are the array's bytes; "
+    "on the file, aligned for their dtype (address % dtype.alignment == 0 and flags.aligned), read-only for 'r', and the file bytes at [offset, offset+nbytes) are the array's bytes; "
     "workers see the same values, as a memmap when above the threshold.  Non-trivial: non-native byte order, "
     "non-contiguous/F/memmap-backed layout, structured/object dtype, 0-d/empty shape, or nbytes within +-1 of max_nbytes.  "
     "distinct = hash of the case."
@@ -341,9 +341,10 @@ def _mmap(np, joblib, spec, scratch):
                                 signature=["not-memmap"])
             if got.size:
                 addr = got.ctypes.data
-                if addr % 16 != 0:
-                    raise Violation("%s: mapped data at address %% 16 == %d (dtype %s shape %r)" % (what, addr % 16, arr.dtype, arr.shape),
-                                    signature=["misaligned"])
+                al = max(1, got.dtype.alignment)
+                if addr % al != 0 or not got.flags.aligned:
+                    raise Violation("%s: mapped data at address %% %d == %d, flags.aligned=%s (dtype %s shape %r)"
+                                    % (what, al, addr % al, got.flags.aligned, arr.dtype, arr.shape), signature=["misaligned"])
                 if spec["mmap_mode"] != "w+":
                     seg = raw[got.offset:got.offset + got.nbytes]
                     order = "F" if (got.flags.f_contiguous and not got.flags.c_contiguous) else "C"
